@@ -1,0 +1,84 @@
+//go:build verif
+
+package goja
+
+// Promise jobs (C10): settling a promise schedules each of its reactions exactly once, in
+// registration order, at the tail of the job queue; the reaction lists are cleared when the promise
+// settles, so no reaction can be scheduled twice; a reaction added to a settled promise is scheduled
+// at once; the rejection tracker is told "reject" when an unhandled promise is rejected and "handle"
+// when the first reaction is attached to a rejected, unhandled promise.
+
+// An object's implementation points back to the object it implements from the moment it is created.
+//@ constructor-of baseObject (*Runtime).builtin_newMap (*Runtime).builtin_newSet (*Runtime).builtin_newWeakMap (*Runtime).builtin_newWeakSet (*Runtime).initBaseJsFunction (*Runtime).newGuardedObject
+//@ stable baseObject.val
+
+//@ func (*Runtime).enqueuePromiseJob
+//@   props C10
+//@   requires r != nil
+//@   ensures len(r.jobQueue) == old(len(r.jobQueue))+1 [one-more]
+//@   ensures forall k int :: 0 <= k && k < old(len(r.jobQueue)) ==> same(r.jobQueue[k], old(r.jobQueue[k])) [queued-jobs-keep-their-place]
+//@   ensures same(r.jobQueue[len(r.jobQueue)-1], job) [appended-at-the-tail]
+//@   ensures samearray(r.jobQueue, old(r.jobQueue)) && sliceoff(r.jobQueue, old(r.jobQueue)) == 0 || newarray(r.jobQueue) [same-or-fresh-array]
+//@   assigns r.jobQueue, elems(r.jobQueue)
+
+// Assumed: building the job closure allocates it and nothing else.
+//@ func (*Runtime).newPromiseReactionJob
+//@   props C10
+//@   trusted
+//@   assigns nothing
+
+//@ func (*Runtime).triggerPromiseReactions
+//@   props C10
+//@   requires r != nil
+//@   loop 1 vars rangeindex int
+//@   loop 1 invariant rangeindex >= -1 && rangeindex < len(reactions) && len(r.jobQueue) == old(len(r.jobQueue))+rangeindex+1 [one-job-per-reaction-so-far]
+//@   loop 1 invariant samearray(r.jobQueue, old(r.jobQueue)) && sliceoff(r.jobQueue, old(r.jobQueue)) == 0 || newarray(r.jobQueue) [same-or-fresh-array]
+//@   loop 1 invariant forall k int :: 0 <= k && k < old(len(r.jobQueue)) ==> same(r.jobQueue[k], old(r.jobQueue[k])) [queued-jobs-keep-their-place]
+//@   ensures len(r.jobQueue) == old(len(r.jobQueue))+len(reactions) [one-job-per-reaction]
+//@   ensures forall k int :: 0 <= k && k < old(len(r.jobQueue)) ==> same(r.jobQueue[k], old(r.jobQueue[k])) [queued-jobs-keep-their-place]
+//@   assigns r.jobQueue, elems(r.jobQueue)
+
+// Assumed of unknown code, for every promise: once settled, its state, result and (empty) reaction
+// lists no longer change (guarantee side: fulfill/reject are only reached through the resolving
+// functions, which act once, and addReactions does not register on a settled promise).
+//@ scriptrely *Promise p old(p.state) != PromiseStatePending ==> p.state == old(p.state) && same(p.result, old(p.result)) && len(p.fulfillReactions) == old(len(p.fulfillReactions)) && len(p.rejectReactions) == old(len(p.rejectReactions))
+
+// The tracker is embedder code: whatever it does, it does not settle or re-register anything on the
+// promise it is told about (assumed; it is handed the promise read-only by convention).
+//@ func (*Runtime).trackPromiseRejection
+//@   props C10
+//@   trusted
+//@   assigns script
+
+//@ func (*Promise).reject
+//@   props C10
+//@   requires p != nil && p.val != nil && p.val.runtime != nil
+//@   ensures p.state == PromiseStateRejected && same(p.result, reason) [rejected-with-the-reason]
+//@   ensures len(p.fulfillReactions) == 0 && len(p.rejectReactions) == 0 [reaction-lists-cleared]
+//@   ensures old(p.handled) ==> len(p.val.runtime.jobQueue) == old(len(p.val.runtime.jobQueue))+old(len(p.rejectReactions)) [each-reject-reaction-scheduled-once]
+
+//@ func (*Promise).fulfill
+//@   props C10
+//@   requires p != nil && p.val != nil && p.val.runtime != nil
+//@   ensures p.state == PromiseStateFulfilled && same(p.result, value) [fulfilled-with-the-value]
+//@   ensures len(p.fulfillReactions) == 0 && len(p.rejectReactions) == 0 [reaction-lists-cleared]
+//@   ensures len(p.val.runtime.jobQueue) == old(len(p.val.runtime.jobQueue))+old(len(p.fulfillReactions)) [each-fulfill-reaction-scheduled-once]
+//@   assigns p.result, p.fulfillReactions, p.rejectReactions, p.state, p.val.runtime.jobQueue, elems(p.val.runtime.jobQueue)
+
+// Registering a pair of reactions: on a pending promise both are appended (registration order is
+// the order of the lists); on a settled promise exactly one job is scheduled at once; either way the
+// promise is handled from now on. (The clauses about the queue are stated for runtimes without an
+// async-context tracker, whose Grab() is embedder code.)
+//@ func (*Promise).addReactions
+//@   props C10
+//@   requires p != nil && p.val != nil && p.val.runtime != nil && fulfillReaction != nil && rejectReaction != nil
+//@   ensures p.handled [marked-handled]
+//@   ensures old(p.state) == PromiseStatePending && old(p.val.runtime.asyncContextTracker == nil) ==> len(p.fulfillReactions) == old(len(p.fulfillReactions))+1 && len(p.rejectReactions) == old(len(p.rejectReactions))+1 && p.rejectReactions[len(p.rejectReactions)-1] == rejectReaction [pending-registers-both-at-the-tail]
+//@   ensures old(p.state) == PromiseStatePending && old(p.val.runtime.asyncContextTracker == nil) ==> len(p.val.runtime.jobQueue) == old(len(p.val.runtime.jobQueue)) && p.state == PromiseStatePending [pending-schedules-nothing]
+//@   ensures old(p.state) == PromiseStateFulfilled && old(p.val.runtime.asyncContextTracker == nil) ==> len(p.val.runtime.jobQueue) == old(len(p.val.runtime.jobQueue))+1 && len(p.fulfillReactions) == old(len(p.fulfillReactions)) [fulfilled-schedules-one-job]
+//@   ensures old(p.state) == PromiseStateRejected && old(p.handled) && old(p.val.runtime.asyncContextTracker == nil) ==> len(p.val.runtime.jobQueue) == old(len(p.val.runtime.jobQueue))+1 [rejected-schedules-one-job]
+
+// Leaving the runtime: leave() runs the queue to exhaustion and leaveAbrupt() (after an interrupt)
+// drops it without running anything - see their contracts with the C03 group. That the two buffers
+// leave() swaps never share memory (so that no pending job is overwritten before it has run) is an
+// ownership argument about an array only a local variable refers to, which this engine cannot express.
